@@ -1,8 +1,14 @@
-// Package vsched: controlled cooperative scheduler (spike).
+// Package vsched is the cooperative scheduler of engine E1 (DESIGN.md 3.1): virtual threads are goroutines of
+// which exactly one runs at a time; every scheduling point inserted by vinstr hands control back to the
+// scheduler, which asks a picker (driven by a generated schedule) whom to run next.
+//
+// Outside a controlled run every primitive degrades to the plain operation.
 package vsched
 
 import (
 	"fmt"
+	"runtime/debug"
+	"strings"
 	"sync/atomic"
 	"time"
 )
@@ -12,23 +18,40 @@ type thread struct {
 	name     string
 	resume   chan struct{}
 	finished bool
-	waitGen  int64 // blocked until progress > waitGen ; -1 = not waiting
+	waitGen  int64 // blocked until progress > waitGen ; -1 = runnable
 	lastPt   string
 	panicVal interface{}
+	stack    string
 }
 
 type killSentinel struct{}
 
+// Picker chooses the next thread among the enabled ones. cur is the thread that ran last (-1 if it finished
+// or is blocked), step counts scheduling decisions from 1.
+type Picker func(enabled []int, cur int, step int) int
+
 type Sched struct {
-	killing bool
+	killing  bool
 	threads  []*thread
 	cur      *thread
 	yielded  chan *thread
 	progress int64
-	Trace    []string
 	Steps    int
-	pick     func(enabled []int, cur int) int
-	KeepTrace bool
+	pick     Picker
+	noYield  int
+	// Grace: when every live thread is blocked, keep re-polling them for this long before declaring quiescence
+	// (needed only by scenarios that rely on real timers).
+	Grace time.Duration
+	// ring of the last scheduling points, for failure reports
+	ring    [64]traceEnt
+	ringPos int
+	// OnSpawn is called (without yielding) when a thread is created through Go
+	OnSpawn func(id int, name string)
+}
+
+type traceEnt struct {
+	tid int
+	pt  string
 }
 
 var active atomic.Pointer[Sched]
@@ -36,23 +59,42 @@ var active atomic.Pointer[Sched]
 // Controlled reports whether a controlled run is active.
 func Controlled() bool { return active.Load() != nil }
 
-func New(pick func(enabled []int, cur int) int) *Sched {
+// Current returns the active scheduler or nil.
+func Current() *Sched { return active.Load() }
+
+// CurrentID is the id of the running virtual thread (-1 outside a controlled run).
+func CurrentID() int {
+	if s := active.Load(); s != nil && s.cur != nil {
+		return s.cur.id
+	}
+	return -1
+}
+
+func New(pick Picker) *Sched {
 	return &Sched{yielded: make(chan *thread), pick: pick}
 }
 
-// Go registers a new virtual thread (or plain goroutine when uncontrolled).
+// Go starts f as a new virtual thread (or a plain goroutine when uncontrolled).
 func Go(f func()) {
 	s := active.Load()
 	if s == nil {
 		go f()
 		return
 	}
-	s.spawn("go", f)
+	id := s.spawn("go", f)
+	if s.OnSpawn != nil {
+		s.OnSpawn(id, "go")
+	}
 }
 
-func (s *Sched) Spawn(name string, f func()) { s.spawn(name, f) }
+// Spawn registers a named thread before or during Run.
+func (s *Sched) Spawn(name string, f func()) int { return s.spawn(name, f) }
 
-func (s *Sched) spawn(name string, f func()) {
+func (s *Sched) NumThreads() int { return len(s.threads) }
+
+func (s *Sched) ThreadName(id int) string { return s.threads[id].name }
+
+func (s *Sched) spawn(name string, f func()) int {
 	t := &thread{id: len(s.threads), name: name, resume: make(chan struct{}), waitGen: -1}
 	s.threads = append(s.threads, t)
 	go func() {
@@ -61,24 +103,41 @@ func (s *Sched) spawn(name string, f func()) {
 			if r := recover(); r != nil {
 				if _, ok := r.(killSentinel); !ok {
 					t.panicVal = r
+					t.stack = stackOf()
 				}
 			}
 			t.finished = true
 			s.progress++
 			s.yielded <- t
 		}()
+		if s.killing {
+			panic(killSentinel{})
+		}
 		f()
 	}()
+	return t.id
 }
 
-// Run executes until all threads finished or all are blocked (quiescent). Returns blocked thread names.
-func (s *Sched) Run(maxSteps int) (blocked []string, err error) {
+// Result of a controlled run.
+type Result struct {
+	Done      bool     // every thread finished
+	Blocked   []string // quiescent: these threads are blocked ("name@point")
+	BlockedID []int
+	Err       string // step budget exceeded or a panic on a virtual thread
+	Panic     bool
+}
+
+// Run executes until all threads finished, or all are blocked (quiescent), or the budget is exhausted.
+// Unfinished threads are unwound afterwards.
+func (s *Sched) Run(maxSteps int) (res Result) {
 	active.Store(s)
 	defer active.Store(nil)
 	defer s.killAll()
-	idle := 0
+	var graceStart time.Time
+	inGrace := false
+	enabled := make([]int, 0, 16)
 	for {
-		var enabled []int
+		enabled = enabled[:0]
 		alive := 0
 		for _, t := range s.threads {
 			if t.finished {
@@ -90,41 +149,50 @@ func (s *Sched) Run(maxSteps int) (blocked []string, err error) {
 			}
 		}
 		if alive == 0 {
-			return nil, nil
+			res.Done = true
+			return
 		}
 		if len(enabled) == 0 {
-			// grace for real timers
-			if idle < 0 {
-				idle++
-				time.Sleep(time.Millisecond)
-				s.progress++
-				continue
+			if s.Grace > 0 {
+				if !inGrace {
+					inGrace = true
+					graceStart = time.Now()
+				}
+				if time.Since(graceStart) < s.Grace {
+					time.Sleep(200 * time.Microsecond)
+					s.progress++
+					continue
+				}
 			}
 			for _, t := range s.threads {
 				if !t.finished {
-					blocked = append(blocked, fmt.Sprintf("%s@%s", t.name, t.lastPt))
+					res.Blocked = append(res.Blocked, t.name+"@"+t.lastPt)
+					res.BlockedID = append(res.BlockedID, t.id)
 				}
 			}
-			return blocked, nil
+			return
 		}
 		curID := -1
-		if s.cur != nil && !s.cur.finished {
+		if s.cur != nil && !s.cur.finished && (s.cur.waitGen < 0) {
 			curID = s.cur.id
 		}
-		id := s.pick(enabled, curID)
-		t := s.threads[id]
-		s.cur = t
 		s.Steps++
 		if s.Steps > maxSteps {
-			return nil, fmt.Errorf("step budget exceeded")
+			res.Err = fmt.Sprintf("step budget %d exceeded", maxSteps)
+			return
 		}
+		id := s.pick(enabled, curID, s.Steps)
+		t := s.threads[id]
+		s.cur = t
 		t.resume <- struct{}{}
 		y := <-s.yielded
 		if y.panicVal != nil {
-			return nil, fmt.Errorf("panic in %s at %s: %v", y.name, y.lastPt, y.panicVal)
+			res.Err = fmt.Sprintf("panic on virtual thread %q at %s: %v\n%s", y.name, y.lastPt, y.panicVal, y.stack)
+			res.Panic = true
+			return
 		}
 		if y.waitGen < 0 {
-			idle = 0
+			inGrace = false
 		}
 	}
 }
@@ -138,9 +206,8 @@ func (s *Sched) yield(pt string, blocking bool) {
 		t.waitGen = -1
 		s.progress++
 	}
-	if s.KeepTrace {
-		s.Trace = append(s.Trace, fmt.Sprintf("%d:%s", t.id, pt))
-	}
+	s.ring[s.ringPos%len(s.ring)] = traceEnt{t.id, pt}
+	s.ringPos++
 	s.yielded <- t
 	<-t.resume
 	if s.killing {
@@ -148,22 +215,57 @@ func (s *Sched) yield(pt string, blocking bool) {
 	}
 }
 
-// Point is a scheduling point inserted before every statement of instrumented code.
+// Tail returns the last scheduling points (oldest first) as "thread:point".
+func (s *Sched) Tail(n int) []string {
+	var out []string
+	start := s.ringPos - n
+	if start < 0 {
+		start = 0
+	}
+	if s.ringPos-start > len(s.ring) {
+		start = s.ringPos - len(s.ring)
+	}
+	for i := start; i < s.ringPos; i++ {
+		e := s.ring[i%len(s.ring)]
+		out = append(out, fmt.Sprintf("%s:%s", s.threads[e.tid].name, e.pt))
+	}
+	return out
+}
+
+// LastPoint is the point at which thread id yielded last.
+func (s *Sched) LastPoint(id int) string { return s.threads[id].lastPt }
+
+// Point is a scheduling point; vinstr inserts one before every statement of instrumented code.
 func Point(id string) {
-	if s := active.Load(); s != nil {
+	if s := active.Load(); s != nil && s.noYield == 0 {
 		s.yield(id, false)
 	}
 }
 
 func Gosched() { Point("gosched") }
 
-// BlockYield: the caller could not make progress; disabled until someone else progresses.
+// BlockYield: the caller cannot make progress; it is disabled until some other thread progresses.
 func BlockYield() {
 	if s := active.Load(); s != nil {
+		if s.noYield != 0 {
+			panic("vsched: blocking inside NoYield")
+		}
 		s.yield(s.cur.lastPt, true)
 		return
 	}
 	time.Sleep(20 * time.Microsecond)
+}
+
+// NoYield runs f without offering scheduling points (harness bookkeeping on a virtual thread).
+func NoYield(f func()) {
+	s := active.Load()
+	if s == nil {
+		f()
+		return
+	}
+	s.noYield++
+	defer func() { s.noYield-- }()
+	f()
 }
 
 func Send[T any](ch chan<- T, v T) {
@@ -171,6 +273,7 @@ func Send[T any](ch chan<- T, v T) {
 		ch <- v
 		return
 	}
+	Point("chan.send")
 	for {
 		select {
 		case ch <- v:
@@ -185,6 +288,7 @@ func Recv[T any](ch <-chan T) T {
 	if active.Load() == nil {
 		return <-ch
 	}
+	Point("chan.recv")
 	for {
 		select {
 		case v := <-ch:
@@ -200,6 +304,7 @@ func Recv2[T any](ch <-chan T) (T, bool) {
 		v, ok := <-ch
 		return v, ok
 	}
+	Point("chan.recv")
 	for {
 		select {
 		case v, ok := <-ch:
@@ -219,4 +324,14 @@ func (s *Sched) killAll() {
 			<-s.yielded
 		}
 	}
+}
+
+func stackOf() string {
+	b := debug.Stack()
+	lines := strings.Split(string(b), "\n")
+	// drop the frames of the recover machinery
+	if len(lines) > 60 {
+		lines = lines[:60]
+	}
+	return strings.Join(lines, "\n")
 }
